@@ -66,7 +66,7 @@ CHECKS = {
         tech="deterministic simulation: recorded beam histories checked against a reference beam step + evaluate replay"),
     "C14": dict(
         cat="exploration", ref="5/C14",
-        text="25 policy x environment pairs in eval mode (AM x 12 envs, PointerNetwork, HAM, MDAM, PolyNet, SymNCO, MatNet with a row-keyed RNG seam, L2D, non-autoregressive decoder), greedy (and multistart-greedy) decoding: each instance solo (B=1) and inside scheduled compositions (subsets, permutations, duplicates, DataLoader chunking with non-dividing batch sizes, the same chunking through rl4co.tasks.eval.evaluate_policy); actions, reward and log-likelihood must coincide up to the selection-flip rule; a crash at B=1 is a violation.",
+        text="28 policy x environment pairs in eval mode (AM x 12 envs, MVMoE, PointerNetwork, HAM, MDAM, PolyNet, SymNCO, MatNet with a row-keyed RNG seam, L2D, non-autoregressive decoder), greedy (and multistart-greedy) decoding: each instance solo (B=1) and inside scheduled compositions (subsets, permutations, duplicates, DataLoader chunking with non-dividing batch sizes, the same chunking through rl4co.tasks.eval.evaluate_policy); actions, reward and log-likelihood must coincide up to the selection-flip rule; a crash at B=1 is a violation.",
         note="CPU kernels only; tiny random-weight policies (embed 32); policies that do not construct offline are excluded and listed in evidence. MatNet's inference-time random embedding is made per-instance by the RNG seam.",
         tech="deterministic simulation: seeded batch-composition scheduler + solo-vs-batched inference history check"),
     "C15": dict(
